@@ -54,3 +54,49 @@ pub uninterp spec fn iter_strs<I>(i: I) -> Seq<Seq<char>>;
 /// a line as produced by `BufRead::lines`: no line feed inside
 pub open spec fn no_nl(l: Seq<char>) -> bool { !l.contains('\n') }
 pub open spec fn lines_clean(ls: Seq<Seq<char>>) -> bool { forall|i: int| 0 <= i < ls.len() ==> no_nl(#[trigger] ls[i]) }
+
+/// every line followed by the separator
+pub open spec fn each_with(parts: Seq<Seq<char>>, sep: Seq<char>) -> Seq<char>
+    decreases parts.len(),
+{
+    if parts.len() == 0 { Seq::empty() } else { each_with(parts.drop_last(), sep) + parts.last() + sep }
+}
+
+pub proof fn lemma_join_is_each_then_last(parts: Seq<Seq<char>>, sep: Seq<char>)
+    requires
+        parts.len() > 0,
+    ensures
+        join_with(parts, sep) == each_with(parts.drop_last(), sep) + parts.last(),
+    decreases parts.len(),
+{
+    if parts.len() == 1 {
+        assert(parts.drop_last().len() == 0);
+        assert(Seq::<char>::empty() + parts.last() =~= parts[0]);
+    } else {
+        let rest = parts.skip(1);
+        lemma_join_is_each_then_last(rest, sep);
+        lemma_each_with_prepend(parts[0], rest.drop_last(), sep);
+        assert(parts.drop_last() =~= seq![parts[0]] + rest.drop_last());
+        assert(rest.last() == parts.last());
+        assert(parts[0] + sep + (each_with(rest.drop_last(), sep) + rest.last()) =~= (parts[0] + sep + each_with(rest.drop_last(), sep)) + parts.last());
+    }
+}
+
+pub proof fn lemma_each_with_prepend(first: Seq<char>, rest: Seq<Seq<char>>, sep: Seq<char>)
+    ensures
+        each_with(seq![first] + rest, sep) == first + sep + each_with(rest, sep),
+    decreases rest.len(),
+{
+    let all = seq![first] + rest;
+    if rest.len() == 0 {
+        assert(all.drop_last() =~= Seq::<Seq<char>>::empty());
+        assert(all.last() == first);
+        assert(each_with(all.drop_last(), sep) =~= Seq::<char>::empty());
+        assert(Seq::<char>::empty() + first + sep =~= first + sep + Seq::<char>::empty());
+    } else {
+        assert(all.drop_last() =~= seq![first] + rest.drop_last());
+        assert(all.last() == rest.last());
+        lemma_each_with_prepend(first, rest.drop_last(), sep);
+        assert((first + sep + each_with(rest.drop_last(), sep)) + rest.last() + sep =~= first + sep + (each_with(rest.drop_last(), sep) + rest.last() + sep));
+    }
+}
